@@ -84,8 +84,8 @@ theorem closedInv_run (s : S) (evs : List Ev) (h : ClosedInv s) : ClosedInv (run
     simp only [run, List.foldl_cons] at ih ⊢
     exact ih _ (closedInv_ev s e h)
 
-theorem closedInv_init (hi ht w p e : Bool) (o er : List Chunk) (ins : List InItem) (ho sf : Bool) (n : Nat) :
-    ClosedInv (S.init hi ht w p e o er ins ho sf n) := by
+theorem closedInv_init (hi ht w p e : Bool) (o er : List Chunk) (ins : List InItem) (ho sf : Bool) (n : Nat) (asy : Bool) :
+    ClosedInv (S.init hi ht w p e o er ins ho sf n asy) := by
   intro hx; simp [S.init] at hx
 
 /-- a kill, once issued, stays issued -/
@@ -128,15 +128,15 @@ theorem rounds_eq_run (s : S) (rs : List (List Actor)) : rs.foldl runRound s = r
 
 /-- termination from reachable states (C08's `reachable_terminates`, restated here for reuse) -/
 theorem reachable_terminates' (hi ht w p e : Bool) (o er : List Chunk) (ins : List InItem) (ho sf : Bool)
-    (n : Nat) (hn : 0 < n) (evs : List Ev) (rs : List (List Actor))
-    (hx : (run (S.init hi ht w p e o er ins ho sf n) evs).exited = true)
-    (h1 : (run (S.init hi ht w p e o er ins ho sf n) evs).out.isOpen = false)
-    (h2 : (run (S.init hi ht w p e o er ins ho sf n) evs).err.isOpen = false)
-    (hc : ∀ r ∈ rs, Covers r) (hl : mu (run (S.init hi ht w p e o er ins ho sf n) evs) < rs.length) :
-    Terminal (rs.foldl runRound (run (S.init hi ht w p e o er ins ho sf n) evs)) := by
-  have hg : Good (run (S.init hi ht w p e o er ins ho sf n) evs) := by
-    refine ⟨⟨hx, h1, h2, ?_⟩, termWF_run _ evs (termWF_init hi ht w p e o er ins ho sf n)⟩
-    have := opts_run (S.init hi ht w p e o er ins ho sf n) evs
+    (n : Nat) (asy : Bool) (hn : 0 < n) (evs : List Ev) (rs : List (List Actor))
+    (hx : (run (S.init hi ht w p e o er ins ho sf n asy) evs).exited = true)
+    (h1 : (run (S.init hi ht w p e o er ins ho sf n asy) evs).out.isOpen = false)
+    (h2 : (run (S.init hi ht w p e o er ins ho sf n asy) evs).err.isOpen = false)
+    (hc : ∀ r ∈ rs, Covers r) (hl : mu (run (S.init hi ht w p e o er ins ho sf n asy) evs) < rs.length) :
+    Terminal (rs.foldl runRound (run (S.init hi ht w p e o er ins ho sf n asy) evs)) := by
+  have hg : Good (run (S.init hi ht w p e o er ins ho sf n asy) evs) := by
+    refine ⟨⟨hx, h1, h2, ?_⟩, termWF_run _ evs (termWF_init hi ht w p e o er ins ho sf n asy)⟩
+    have := opts_run (S.init hi ht w p e o er ins ho sf n asy) evs
     simp only [S.opts, Prod.mk.injEq] at this
     rw [this.2.2.2.2.2.2.2]; simpa [S.init] using hn
   rcases rounds_bound rs _ hg hc with h | h
